@@ -202,7 +202,29 @@ func corruptRaw(r *core.Rand, raw []byte, blockAligned bool) []byte {
 	return m
 }
 
+// genReuseLeft: the buffer-level ops answered by the arena model: valid and corrupted raw envelopes
+// into SaltBySecret*Decrypt(…, true), printing what the caller's buffer holds afterwards
+func genReuseLeft(r *core.Rand) string {
+	secret, salt, pt := genSecret(r), r.Bytes(8), r.Bytes(genLen(r))
+	if r.Bool() {
+		raw := refCBCEnvelope(salt, secret, pt)
+		if r.Chance(60) {
+			raw = corruptRaw(r, raw, true)
+		}
+		return fmt.Sprintf("reuse-cbc-left %s %s", hx(secret), hx(raw))
+	}
+	ad := r.Bytes(r.Intn(2) * r.Range(1, 20))
+	raw := refGCMEnvelope(salt, secret, ad, pt)
+	if r.Chance(60) {
+		raw = corruptRaw(r, raw, false)
+	}
+	return fmt.Sprintf("reuse-gcm-left %s %s %s", hx(secret), hx(ad), hx(raw))
+}
+
 func genLine(r *core.Rand) string {
+	if r.Chance(8) {
+		return genReuseLeft(r)
+	}
 	ty := genTy(r)
 	secret := genSecret(r)
 	salt := r.Bytes(8)
@@ -789,6 +811,26 @@ func corpus() []core.Case {
 			fmt.Sprintf("raw-dec-gcm %d bb %s 6164 %s", v%2, hx(h2), hx(refGCMEnvelope(sv, h2, []byte("ad"), p))),
 			fmt.Sprintf("dec-stream bb %s g:-:1:0 - %s", hx(h2), hx(refStream(sv, h2, p)))}, Tag: "arena"})
 	}
+	// BUFFER LEVEL, enumerated: every truncation and a flipped bit at every 7th position of raw CBC / GCM
+	// envelopes into SaltBySecret*Decrypt(…, true): what the caller's buffer holds afterwards
+	ls = nil
+	for n := 0; n <= len(rawC); n++ {
+		ls = append(ls, fmt.Sprintf("reuse-cbc-left %s %s", hx(secret), hx(rawC[:n])))
+	}
+	for n := 0; n <= len(rawG); n++ {
+		ls = append(ls, fmt.Sprintf("reuse-gcm-left %s 6164 %s", hx(secret), hx(rawG[:n])))
+	}
+	for i := 0; i < len(rawG); i += 7 {
+		x := append([]byte{}, rawG...)
+		x[i] ^= 0x10
+		ls = append(ls, fmt.Sprintf("reuse-gcm-left %s 6164 %s", hx(secret), hx(x)))
+		if i < len(rawC) {
+			y := append([]byte{}, rawC...)
+			y[i] ^= 0x10
+			ls = append(ls, fmt.Sprintf("reuse-cbc-left %s %s", hx(secret), hx(y)))
+		}
+	}
+	add(ls...)
 	// ADVERSARIAL SALTS, enumerated: every (secret, salt) of the table, plaintext = d + 3 blocks (the
 	// counter's last word wraps inside the stream), encrypt and decrypt; secret lengths around the
 	// 1 KiB / 2 KiB scratch sizes (+ the 16 bytes of the previous digest, + the 8 bytes of salt)
